@@ -409,6 +409,18 @@ fn run_case(cx: &CaseCtx, rep: &mut Report) {
 				bb.add_border(2, 2, 2, 2);
 				if bb.count_tiles() <= 70_000 {
 					boxes.push(bb);
+				} else {
+					// a tall level box (tile sets that reach a pole): bands of rows, together the whole box
+					let rows = (70_000 / bb.width().max(1) as u64).max(1) as u32;
+					let mut y = bb.y_min;
+					loop {
+						let y1 = (y as u64 + rows as u64 - 1).min(bb.y_max as u64) as u32;
+						boxes.push(TileBBox::new(*z, bb.x_min, y, bb.x_max, y1).unwrap());
+						if y1 >= bb.y_max {
+							break;
+						}
+						y = y1 + 1;
+					}
 				}
 			}
 			let mut streamed: BTreeMap<Key, Vec<u8>> = BTreeMap::new();
